@@ -84,11 +84,11 @@ package jhttp
 // over c.rsp with err == nil carries its debt to whoever receives it.
 //@ tlghost bodyDebt Int
 //@ chanmsg response bodyDebt, (msg.err == nil ? 1 : 0)
-//@ chaninv response msg.err == nil ==> msg.rsp != nil
+//@ chaninv response msg.err == nil ==> msg.rsp != nil && msg.rsp.Body != nil
 
 //@ iface HTTPClient.Do
 //@   modifies bodyDebt
-//@   ensures result1 == nil ==> result0 != nil && bodyDebt == old(bodyDebt) + 1
+//@   ensures result1 == nil ==> result0 != nil && result0.Body != nil && bodyDebt == old(bodyDebt) + 1
 //@   ensures result1 != nil ==> bodyDebt == old(bodyDebt)
 
 // Send starts exactly one goroutine per accepted record, owing one Done.
